@@ -237,6 +237,13 @@ class Contract:
                 p0.pc.extend(pre)
                 for name, v in a.items():
                     p0.env[name] = v
+                # parameters the contract's call shape does not pass (added later, say) take their constant defaults: the
+                # contract speaks about the calls the property is about, which do not pass them
+                allp = fn.args.posonlyargs + fn.args.args
+                for prm, d in list(zip(allp[len(allp) - len(fn.args.defaults):], fn.args.defaults)) + \
+                        [(k, d) for k, d in zip(fn.args.kwonlyargs, fn.args.kw_defaults) if d is not None]:
+                    if prm.arg not in p0.env and isinstance(d, ast.Constant):
+                        p0.env[prm.arg] = _const(d.value)
                 # vacuity guard: precondition satisfiable
                 s = z3.Solver()
                 s.set("timeout", 10000)
@@ -260,9 +267,9 @@ class Contract:
                 oid = "%s/%%s[%s]#p%d" % (base, sh.label, k)
                 hyps = p.pc + p.facts
 
-                def add(name, goal, okind, h=hyps, text=None):
+                def add(name, goal, okind, h=hyps, text=None, sat_means=None):
                     obls.append(Obl(oid % name, self.target, okind, text or ("%s: %s" % (name, _short(goal))),
-                                    decide=smt_decider(h, goal, self.tier, model_vars=mv), props=self.clause_props(name, okind),
+                                    decide=smt_decider(h, goal, self.tier, model_vars=mv, sat_means=sat_means), props=self.clause_props(name, okind),
                                     replay=self.replay, meta={"shape": sh.label, "clause": name, "outcome": kind}))
                 # safety / callee-precondition obligations collected along the path (with the pc at that point)
                 for (name, goal, ln, pc_at, facts_at) in p.obls:
@@ -283,12 +290,16 @@ class Contract:
                         add("raises.only-when:" + exc, rz[exc], "raises",
                             text="%s raised only under its documented condition (%s)" % (exc, v.info))
                     elif not self.allow_any_exception:
+                        nc = (v.info or "").startswith("no-contract:")
                         add("raises.none:" + exc, z3.BoolVal(False), "raises",
-                            text="no %s is ever raised (%s)" % (exc, v.info))
+                            text="no %s is ever raised (%s)" % (exc, v.info),
+                            sat_means=("%s -- a library call without an assumed contract: whether it can raise on these arguments is not known to the verifier "
+                                       "(needs a contract); not a counterexample" % v.info) if nc else None)
                     elif self.no_own_raises and (v.info or "").startswith("line "):
                         # exceptions may propagate from callees, but the body itself has no business raising a new one
                         add("raises.none-of-its-own:" + exc, z3.BoolVal(False), "raises",
                             text="the function raises no exception of its own (%s at %s)" % (exc, v.info))
+                _prune_havoc(p, v)
                 for name, goal in self.frame(a, p, kind, snapshot):
                     add("frame." + name, goal, "frame")
         if n_return == 0 and not self.always_raises and not any(o.status == UNDECIDED for o in obls):
@@ -296,6 +307,48 @@ class Contract:
                             status=ERROR, backend="pyvc", detail="no feasible return path: contract or engine defect",
                             props=self.props))
         return obls
+
+
+def _prune_havoc(p, result):
+    """an environment-dependent value (a clock reading, say) that reaches neither the result, nor a branch condition, nor a
+    store, nor the arguments of any call other than logging is not nondeterminism of the function: drop it from p.havoc.
+    Entries without a term (shared-object reads etc.) are always kept."""
+    if not any(len(h) > 2 for h in p.havoc):
+        return
+    seen = []
+
+    def walk(x, depth=0):
+        if depth > 6:
+            return
+        if z3.is_expr(x):
+            seen.append(x)
+        elif isinstance(x, (list, tuple, set)):
+            for y in x:
+                walk(y, depth + 1)
+        elif isinstance(x, dict):
+            for y in x.values():
+                walk(y, depth + 1)
+        elif hasattr(x, "__dict__") and not callable(x):
+            for y in vars(x).values():
+                walk(y, depth + 1)
+    walk(result)
+    walk(p.pc)
+    walk(p.effects)
+    for h in p.heap.values():
+        walk(h.get("attrs", {}))
+    for (_n, goal, _ln, _pc, _f) in p.obls:
+        walk(goal)
+    text = None
+    keep = []
+    for h in p.havoc:
+        if len(h) < 3 or not z3.is_expr(h[2]):
+            keep.append(h)
+            continue
+        if text is None:
+            text = "\n".join(e.sexpr() for e in seen)
+        if h[2].decl().name() in text:
+            keep.append(h)
+    p.havoc[:] = keep
 
 
 def _snapshot(p):
